@@ -340,6 +340,7 @@ def run_hist(case, work, drift=None):
         keep = []
         rnd = random.Random(len(case["ops"]))
         for i, op in enumerate(case["ops"]):
+            B.STATS["step:" + (op[0] if op[0] != "fault" else "fault-in-domain" if op[9] else "fault-unspecified")] += 1
             where = "step %d of %d (two packages open, %s)" % (i + 1, len(case["ops"]), "/".join(sess.hows[o] for o in (1, 2)))
             if op[0] == "mutate":
                 if keep:
@@ -614,7 +615,7 @@ def record_session(rnd, work, given=None):
     opened = {1: set(), 2: set()}       # parts a successful query has opened since the object was created
 
     def reopen_same(o):
-        """after a fault the generator takes to be outside the fault domain (unopened or gz part): the
+        """after a fault the generator takes to be outside the fault domain (unopened or compressed part): the
         object is opened again on the same content before anything else is asked of it"""
         st = sess.open(o, cur[o])
         events.append({"op": "reopen", "o": o, "pkg": abstract(cur[o])})
@@ -640,7 +641,7 @@ def record_session(rnd, work, given=None):
                     if args:
                         ev.update({"p": args[0], "sp": args[1], "n": args[2] if args[2] != "absent" else "f0"})
                     events.append(ev)
-                    if not (p in opened[o] and ext_of(mems[o], p) != "gz") and reopen_same(o) != "ok":
+                    if not (p in opened[o] and ext_of(mems[o], p) == "") and reopen_same(o) != "ok":
                         break
                     continue
                 cl = [q, o] + list(args) + [(k + len(events)) % N_ACCESS] if args else [q, o, "utf-8"]
@@ -675,7 +676,7 @@ def record_session(rnd, work, given=None):
                 exc, err, data = sess.read_end((cl[3], cl[4]) if op == "fault" else None)
                 if exc:
                     events.append({"op": "fault", "o": o, "q": "readend", "exc": exc})
-                    if not (p in opened[o] and ext_of(mems[o], p) != "gz") and reopen_same(o) != "ok":
+                    if not (p in opened[o] and ext_of(mems[o], p) == "") and reopen_same(o) != "ok":
                         break
                 else:
                     events.append({"op": "readend", "o": o, "err": err, "found": data is not None,
@@ -730,6 +731,8 @@ def record_session(rnd, work, given=None):
                     opened[o].add("control")
     finally:
         sess.close()
+    for e in events:
+        B.STATS["event:" + e["op"]] += 1
     return {"objs": objs, "events": events,
             "given": {"concs": {k: v.to_json() for k, v in concs.items()}, "model": model, "calls": calls,
                       "mems": {str(k): v for k, v in mems.items()}, "hows": {str(k): v for k, v in hows.items()},
